@@ -26,7 +26,7 @@ class Family:
     name = "?"
     func = None
     cuts = []
-    same_scale = True      # log-det omits log((top-bottom)/(right-left)): call-site-derived precondition top-bottom == right-left
+    same_scale = False     # boxes are arbitrary (left < right, bottom < top); a precondition top-bottom == right-left is no longer assumed
     normalised = True      # the function maps the box to [0,1] first
 
     def params(self, K):
@@ -541,7 +541,8 @@ class Cubic(Family):
         if "C02" in props:
             ensure(h, ctx, "C02.roundtrip_fi", cubic_at_s == yn)
             numr, den = exp_of_loglin(ld)[1:]
-            ensure(h, ctx, "C02.neg-logdet", numr * (3 * a_ * s_ * s_ + 2 * b_ * s_ + c_) == den)
+            # exp(ld) = d out / d y = (r - l) / ((t - b) P'(s))   (P in normalised coordinates of the box)
+            ensure(h, ctx, "C02.neg-logdet", numr * (t - b) * (3 * a_ * s_ * s_ + 2 * b_ * s_ + c_) == den * (r - l))
         if "C09" in props:
             ensure(h, ctx, "C09.range", z3.And(out >= l, out <= r))
         return
